@@ -151,11 +151,13 @@ SAMPLES = [
 PROFILES = {
     # op weights per property
     "C11": dict(derive=35, md=9, qmd=8, term=5, fail=8, rebind=3, unbind=0, touch=1,
-                exec_sync=10, spawn=12, cancel=3, sleep=5, drain=1, join=1, rootless=0, mt=2),
+                exec_sync=10, spawn=12, cancel=3, sleep=5, drain=1, join=1, rootless=0, mt=2,
+                lookup_deep=1),
     "C12": dict(derive=24, md=9, qmd=4, term=6, fail=3, rebind=1, unbind=0, touch=0,
                 exec_sync=10, spawn=30, cancel=6, sleep=8, drain=2, join=2, rootless=1, mt=5),
     "C16": dict(derive=24, md=5, qmd=32, term=5, fail=2, rebind=1, unbind=0, touch=0,
-                exec_sync=9, spawn=8, cancel=1, sleep=3, drain=1, join=0, rootless=0),
+                exec_sync=9, spawn=8, cancel=1, sleep=3, drain=1, join=0, rootless=0,
+                lookup_deep=9),
     "C04": dict(derive=40, md=2, qmd=2, term=1, fail=0, rebind=26, unbind=4, touch=4,
                 exec_sync=8, spawn=6, cancel=1, sleep=2, drain=1, join=0, rootless=0),
 }
@@ -374,6 +376,8 @@ def generate(prop: str, seed: int, tier: str = "quick", fault_free: bool = False
         weights["touch"] = 0
     if "threads" not in faults:
         weights["mt"] = 0
+    if "small_stack" not in faults:
+        weights["lookup_deep"] = 0
     modes = dict(MODE_W[prop])
     if "shared_ast" not in faults:
         modes["shared"] = 0
@@ -422,9 +426,31 @@ def generate(prop: str, seed: int, tier: str = "quick", fault_free: bool = False
             if w.random() < 0.08:
                 md = {}
             ops.append({"op": "qmd", "parent": w.randrange(64), "md": md})
+            if "small_stack" in faults and w.random() < 0.15:
+                # QMetaData called with few frames left (it looks keys up along the path)
+                ops[-1]["stack"] = w.choice([4, 6, 8, 10, 13, 17, 22, 30, 45])
+            again = [k for k in md if len(qhist.get(k, [])) > 1]
+            if again and "small_stack" in faults and w.random() < 0.3:
+                # a key set for the second time, some operators on top, and a look-up of that
+                # key (or another QMetaData of it) from deep in the stack
+                for _ in range(w.randint(0, 3)):
+                    ops.append({"op": "derive", "parent": -1, "lam": w.randrange(64), "mode": "str"})
+                fr = w.choice([3, 4, 5, 6, 8, 10, 13, 17, 22])
+                if w.random() < 0.6:
+                    ops.append({"op": "lookup_deep", "stream": -1, "key": w.choice(again), "stack": fr})
+                else:
+                    k2 = w.choice(again)
+                    ops.append({"op": "qmd", "parent": -1, "md": {k2: w.choice(qhist[k2])},
+                                "stack": fr})
             if w.random() < 0.35:  # consecutive calls on the stream just made
                 md2 = {w.choice(KEYS[:5]): w.choice(QVALS)}
                 ops.append({"op": "qmd", "parent": -1, "md": md2})
+        elif k == "lookup_deep":
+            # a look-up made deep in the stack: it may overflow, it may not answer wrongly.
+            # Mostly for a key the run has set (often more than once), on a recent stream
+            key = w.choice(sorted(qhist)) if qhist and w.random() < 0.8 else w.choice(KEYS)
+            ops.append({"op": "lookup_deep", "stream": w.choice([-1, -1, -1, w.randrange(64)]),
+                        "key": key, "stack": w.choice([3, 5, 7, 9, 12, 16, 21, 28, 40])})
         elif k == "term":
             ops.append({"op": "term", "parent": w.randrange(64), "kind": w.choice(TERMS),
                         "cols": w.choice([[], ["c1"], ["c1", "c2"], "c"])})
@@ -1155,7 +1181,11 @@ class Forest:
         self.last_op = "qmetadata"
         if parent.made_by == "QMetaData":
             self.stat("probe_qmetadata_twice_in_a_row")
-        new, ex = self.builder(lambda: parent.stream.QMetaData(dict(op["md"])))
+        self.derive_stack = op.get("stack")
+        try:
+            new, ex = self.builder(lambda: parent.stream.QMetaData(dict(op["md"])))
+        finally:
+            self.derive_stack = None
         if ex is not None:
             self.stat("derive_raised")
             return
@@ -1173,6 +1203,30 @@ class Forest:
                     new.query_ast) != calc_ast_hash(parent.twin.query_ast):
                 raise Violation("C16/backend", {"what": "dump/hash differ right after QMetaData",
                                                 "md": op["md"]})
+
+    def op_lookup_deep(self, op):
+        "lookup_query_metadata with few frames left: RecursionError or the right answer."
+        from func_adl.ast.meta_data import lookup_query_metadata
+
+        m = self.ref(op, "stream")
+        self.last_op = "lookup-deep"
+        self.stat("fault_small_stack_lookup")
+        try:
+            with small_stack(op["stack"]):
+                got = lookup_query_metadata(m.stream, op["key"])
+        except RecursionError:
+            self.stat("lookup_overflows")
+            self.ev("lookup_overflow", m.idx)
+            return
+        exp = m.md.get(op["key"])
+        self.ev("lookup_deep", m.idx, op["key"], repr(got))
+        if "C16" in self.oracles and got != exp:
+            sub = ("lost-earlier-key" if exp is not None and got is None
+                   else "phantom" if exp is None else "stale-or-leaked-value")
+            raise Violation(f"C16/lookup/{sub}",
+                            {"stream": m.idx, "key": op["key"], "got": repr(got),
+                             "expected": repr(exp), "after": "lookup with few frames left",
+                             "frames": op["stack"]})
 
     def op_term(self, op):
         parent = self.ref(op, "parent")
@@ -1616,6 +1670,8 @@ class Forest:
                 self.op_qmd(op)
             elif k == "term":
                 self.op_term(op)
+            elif k == "lookup_deep":
+                self.op_lookup_deep(op)
             elif k == "derive_fail":
                 self.op_fail(op)
             elif k == "rebind":
